@@ -64,6 +64,7 @@ def gen_case(rng, i):
     B = Pt @ Xt @ Mt.T + c0
     B = B * (1 + 0.02 * rng.normal(0, 1, B.shape))
     B = np.maximum(B, c0 + 1e-6)
+    s["registered"] = bool(rng.integers(5) == 0)
     s.update({"B": np.clip(B, 0, 100), "L": L, "mask": mask, "maskkind": mk, "equal": bool(rng.integers(2)),
               "subsample": [None, 0.5, "fast"][(i // 3) % 3], "lbp": lbp, "ubp": ubp, "custom": custom,
               "seed": int(rng.integers(1000)), "max_iter": int(rng.integers(4, 16)),
@@ -135,7 +136,8 @@ def chk_case(inp, c):
     kw = dict(n_layers=L, mask=(mask.copy() if inp["pass_mask"] else None), lbp=inp["lbp"], ubp=inp["ubp"],
               max_iter=inp["max_iter"], seed=inp["seed"], subsample=sub, equal_l1norm_constraint=equal)
     runtime.EVENTS.clear()
-    out = c.call(est.fit_decomposition, B.copy(), _where="ReceptorEstimator.fit_decomposition", **kw)
+    out = gen.est_query(c, est, "fit_decomposition", B.copy(), attrs=("X", "P", "B"), registered=bool(inp.get("registered")),
+                        _where="ReceptorEstimator.fit_decomposition", **kw)
     steps = [f for k, f in c.events if k == "decomp.step"]
     if not c.require(isinstance(out, tuple) and len(out) == 3, "returns (X, P, B_pred)", mechanism="return-type"):
         return
@@ -212,7 +214,8 @@ def chk_case(inp, c):
                       mechanism="last-factor-P-suboptimal", worst=float(np.max(gaps)))
     # determinism: same seed, same result
     c.cell("determinism")
-    out2 = c.call(est.fit_decomposition, B.copy(), _where="ReceptorEstimator.fit_decomposition (repeat)", **kw)
+    out2 = gen.est_query(c, est, "fit_decomposition", B.copy(), attrs=("X", "P", "B"), registered=bool(inp.get("registered")),
+                         _where="ReceptorEstimator.fit_decomposition (repeat)", **kw)   # same mode: same memory layout of the targets
     c.require(np.allclose(out2[0], X, rtol=0, atol=1e-10) and np.allclose(out2[1], P, rtol=0, atol=1e-10),
               "the same seed gives the same result", mechanism="nondeterministic",
               dX=float(np.max(np.abs(np.asarray(out2[0]) - X))), dP=float(np.max(np.abs(np.asarray(out2[1]) - P))))
